@@ -182,9 +182,8 @@ Compact == \/ TrivialMove
               /\ \E c \in Selectable : DoMoveOrMerge(c)
 
 (* -------------------------------- reopen -------------------------------- *)
-\* tree/recover.rs: edge newer -> older between key-overlapping files; files with interleaved
-\* timestamp ranges are mutually connected; SCC = mutual reachability; level = longest path from a
-\* root of the SCC DAG; clamp to NL levels; L0 by smallest timestamp, others by (first key, min ts)
+\* tree/recover.rs for the handful of files of this model (the recursive form is faster here than
+\* Tree!RecoverLevels' tabulated one; both transcribe the same algorithm)
 Overlap(a, b, fs) == FirstKey(fs[a]) <= LastKey(fs[b]) /\ FirstKey(fs[b]) <= LastKey(fs[a])
 Edge(a, b, fs) == a # b /\ Overlap(a, b, fs) /\ ~(MaxTs(fs[a]) < MinTs(fs[b]))     \* a is not strictly older than b
 RECURSIVE ReachN(_, _, _, _)
@@ -196,7 +195,7 @@ Depth(C, ids, fs, fuel) ==   \* longest path (in SCCs) ending at component C
   LET preds == {Scc(a, ids, fs) : a \in {x \in ids \ C : \E y \in C : Edge(x, y, fs)}} \ {C}
   IN IF preds = {} \/ fuel = 0 THEN 0 ELSE 1 + MaxOf({Depth(P, ids, fs, fuel - 1) : P \in preds})
 
-RecoverLevels(ids, fs) ==
+RecoverOrdered(ids, fs) ==
   LET lvl(a) == Depth(Scc(a, ids, fs), ids, fs, Cardinality(ids))
       mx == IF ids = {} THEN 0 ELSE MaxOf({lvl(a) : a \in ids})
       delta == IF mx >= NL THEN mx - NL + 1 ELSE 0
@@ -215,7 +214,7 @@ Reopen ==
          ids == Ids(levels) \cup (IF mem = {} THEN {} ELSE {nf + 1})
      IN /\ files' = fs2
         /\ nf' = IF mem = {} THEN nf ELSE nf + 1
-        /\ levels' = RecoverLevels(ids, fs2)
+        /\ levels' = RecoverOrdered(ids, fs2)
   /\ mem' = {}
   /\ h' = Append(h, <<"reopen">>)
   /\ UNCHANGED <<all, gcd, seq>>
